@@ -1,17 +1,17 @@
 CONSTANTS
   Txn = {t1}
-  NSlot = 2
+  NSlot = 1
   MaxVal = 3
   MaxCrash = 3
-  MaxLog = 9
+  MaxLog = 7
   FixAbort = TRUE
   FixUndoSlot = TRUE
   FixCkpt = TRUE
   FixLsn = TRUE
   FixGcOrder = TRUE
   FixRedoUpd = TRUE
-  FixStamp = TRUE
-  Torn = TRUE
+  FixStamp = FALSE
+  Torn = FALSE
 SPECIFICATION Spec
 INVARIANTS Recovered NoPanic PageBehindLog
 CHECK_DEADLOCK FALSE
